@@ -10,7 +10,7 @@ import (
 // the object is re-read through Get and must equal the model (otherwise
 // bad is called once for that chunk).
 func Iterate[T comparable, P Object[T]](im *Impl[T, P], dims []Dim, bg spec.Assignment, workers int,
-	fn func(idx int, a spec.Assignment, o *T), bad func(a spec.Assignment, why string)) {
+	fn func(idx int, a spec.Assignment, o *T), bad func(a spec.Assignment, why string), stop func() bool) {
 	ver := im.Ver
 	n := 1
 	for _, d := range dims {
@@ -25,6 +25,9 @@ func Iterate[T comparable, P Object[T]](im *Impl[T, P], dims []Dim, bg spec.Assi
 		lo, hi := c*chunk, (c+1)*chunk
 		if hi > n {
 			hi = n
+		}
+		if stop != nil && stop() {
+			return
 		}
 		dg := make([]int, len(dims))
 		x := lo
